@@ -6,7 +6,8 @@ usage: sysworker.py <jobs.json> <out.json>      (PYTHONPATH selects the implemen
 A job is executed in a sandbox directory of its own with a fresh `API()` object:
   files / pre   files to create (inputs / pre-existing clutter),  cwd  working directory inside the sandbox
   contexts      list of option dicts for `API.configure(options=…)` (`{ROOT}` = absolute sandbox root)
-  calls         [{"op": "parse", "ctx": i, "idl": spelling} | {"op": "generate", "gc": k, "target": t, "clean": b} | {"op": "report", "gc": k}]
+  calls         [{"op": "parse", "ctx": i, "idl": spelling, "write": {path: text}?} | {"op": "generate", "gc": k, "target": t, "clean": b} | {"op": "report", "gc": k}]
+                (`write`: files created / replaced in the sandbox just before the parse — an edit of the IDL between two runs)
   snapshot_calls  true: a directory snapshot around every call (`created` / `deleted` per call)
 A configuration that `API.configure` refuses is an observation (`configure[i]`), calls on it are `skipped`.
 The observation: per call the slice of the write log, exception class / diagnostics (with the message text, sandbox
@@ -118,6 +119,13 @@ def norm_diag(d: dict, root: str) -> dict:
     return d
 
 
+def config_digest(cctx) -> str:
+    try:
+        return sha(json.dumps(cctx.config.model_dump(mode="json"), sort_keys=True, default=str).encode())
+    except Exception as e:      # not dumpable: an observation of its own, equal before and after
+        return f"<undumpable {type(e).__name__}>"
+
+
 def tables() -> dict:
     from pydjinni import API
     import pydjinni.generator.generator as gg
@@ -193,6 +201,7 @@ def run_job(job: dict, base: Path, idx: int) -> dict:
         api = API()
         frw = api._file_reader_writer
         contexts = []
+        config_before = []
         obs["configure"] = []
         for opts in job["contexts"]:
             try:
@@ -200,6 +209,7 @@ def run_job(job: dict, base: Path, idx: int) -> dict:
             except ApplicationException as e:
                 # a refused configuration is an observation of its own (C10: the same refusal under every hash seed)
                 contexts.append(None)
+                config_before.append(None)
                 obs["configure"].append({"ok": False, "exc": {"cls": type(e).__name__, "msg": str(e)[:400].replace(R, "{ROOT}"), "app": True},
                                          "diags": [norm_diag(diag_dump(e), R)]})
                 obs["cfg"].append({})
@@ -207,6 +217,7 @@ def run_job(job: dict, base: Path, idx: int) -> dict:
                 continue
             obs["configure"].append({"ok": True, "exc": None, "diags": []})
             contexts.append(cctx)
+            config_before.append(config_digest(cctx))
             gen = cctx.config.generate
             obs["cfg"].append({k: gcfg_dump(k, getattr(gen, k)) for k in ("cpp", "java", "jni", "objc", "objcpp", "cppcli", "yaml")
                                if k in gen.model_fields_set and getattr(gen, k) is not None})
@@ -230,6 +241,9 @@ def run_job(job: dict, base: Path, idx: int) -> dict:
                     rec["ok"] = False
                     rec["skipped"] = "no parse result"
                 elif call["op"] == "parse":
+                    for rel, text in (call.get("write") or {}).items():
+                        (root / rel).parent.mkdir(parents=True, exist_ok=True)
+                        (root / rel).write_text(text)
                     try:
                         gc = contexts[call["ctx"]].parse(subst(call["idl"], R))
                         results.append(gc)
@@ -266,14 +280,19 @@ def run_job(job: dict, base: Path, idx: int) -> dict:
                 rec["existing"] = sorted(snap0)
             if job.get("normalized"):
                 # digests that do not depend on where the sandbox is: the sandbox root is replaced in the bytes
-                files = {}
+                files, sizes = {}, {}
                 for _, pth, _ in rec["log"]:
                     try:
-                        files[pth.replace(R, "{ROOT}")] = sha(open(pth, "rb").read().replace(R.encode(), b"{ROOT}"))
+                        raw = open(pth, "rb").read()
+                        files[pth.replace(R, "{ROOT}")] = sha(raw.replace(R.encode(), b"{ROOT}"))
+                        sizes[pth.replace(R, "{ROOT}")] = len(raw)
                     except OSError:
                         files[pth.replace(R, "{ROOT}")] = "?"
                 rec["files"] = files
+                rec["sizes"] = sizes
             obs["calls"].append(rec)
+        # the validated configuration of every context, before the first and after the last call (a context is an input, not a state)
+        obs["config_unchanged"] = [None if c is None else config_digest(c) == b for c, b in zip(contexts, config_before)]
         obs["parsed_idl"] = [str(x) for x in frw.processed_files.parsed.idl]
         obs["parsed_ext"] = [str(x) for x in frw.processed_files.parsed.external_types]
         obs["rawset_loops"] = RAWSET["n"]
